@@ -294,8 +294,16 @@ def targeted(rng, curve="BN254"):
     values merged at joins, loops, every operator on constants)."""
     p = PRIMES[curve]
     lit = lambda: str(rng.choice([0, 1, 2, 3, 5, p - 1, p // 2, p // 2 + 1, 255, 256, 1 << 20]))
-    k = rng.randrange(16)
-    if k >= 13:    # several locals changed at different depths of a nest, read after it (phi placement per variable)
+    k = rng.randrange(18)
+    if k >= 16:    # a parameter (array) reassigned / updated element-wise more than once: its later versions are
+        #            named by no declaration statement (defect D20, repaired in /repo 2468c0a)
+        if rng.random() < 0.5:
+            return ("template T(arr) { signal input a; signal output b; arr[%d] = a %s a %s a; arr[%d] = %s; b <-- arr[%d]%s; }"
+                    % (rng.randrange(2), rng.choice(["*", "+"]), rng.choice(["*", "+"]), rng.randrange(2), lit(), rng.randrange(2),
+                       rng.choice(["", " * a", " + a"])))
+        return ("function f(arr, n, a) { n = n %s a; arr[%d] = n * a; arr[%d] = %s; if (n == %s) { return arr[0]; } return arr[%d] + n; }"
+                % (rng.choice(["*", "+"]), rng.randrange(2), rng.randrange(2), lit(), lit(), rng.randrange(2)))
+    if k >= 13 and k < 16:    # several locals changed at different depths of a nest, read after it (phi placement per variable)
         return nest_shape(rng, lit)
     if k == 11:    # a loop as the very first statement (block 0 must stay the entry without predecessors)
         return ("function f(n) { while (n > %s) { n -= 1; } return n; }" % lit())
